@@ -39,6 +39,18 @@ package internal
 //@   assigns *
 //@   preserves pkg/gengo/snippet. pkg/gengo/internal.
 
+//@ func Dumper.ValueLit
+//@   props C05 C10
+//@   requires d != nil && d.namer != nil
+//@   requires forall i int :: 0 <= i && i < len(optFns) ==> optFns[i] != nil
+//@   assume forall v reflect.Value :: v.Type() != nil
+//@   assigns *
+//@   effects
+//@   fnvalue-calllog 5
+//@   preserves pkg/gengo/snippet. pkg/gengo/internal. except pkg/gengo/internal.ValueLitOpt.SubValue, pkg/gengo/internal.ValueLitOpt.OnInterface, pkg/gengo/internal.ValueLitOpt.OnNamedType
+//@   panics true
+//@   note frame only (C05): rendering a value literal - including the user callbacks OnNamedType / OnInterface it may call - stores nothing into snippet values or the dumper. What the text MEANS (C10) is not claimed.
+
 // ---- govc prelude: ghost helpers of the clause language (identical in every contracts_verif.go) ----
 
 func spec_old[T any](v T) T                             { return v }
